@@ -123,7 +123,11 @@ impl EventLoop {
     pub fn clean(&mut self) {
         self.network = None;
         self.keepalive_timeout = None;
-        self.pending.extend(self.state.clean());
+        // what was already transmitted again on this connection was sent before whatever is
+        // still waiting in pending: keep that order for the next replay
+        let mut pending: VecDeque<Request> = self.state.clean().into();
+        pending.append(&mut self.pending);
+        self.pending = pending;
 
         // drain requests from channel which weren't yet received
         let mut requests_in_channel: Vec<_> = self.requests_rx.drain().collect();
